@@ -3,6 +3,7 @@ package props
 import (
 	"fmt"
 	"strings"
+	"sync"
 
 	lib "github.com/corazawaf/libinjection-go"
 
@@ -15,6 +16,25 @@ import (
 var embedPrefix = []string{"", "<a ", "<a b='", "<a b=\"", "<a b=`"}
 
 // prefixes without '<' for the "prepending text never changes the element-content verdict" part
+var (
+	c13PreOnce sync.Once
+	c13PreAll  []string
+)
+
+// c13PreNow: the '<'-free prefix texts plus, for every literal the tree under test has in addition to the pinned
+// tree (and that has no '<'), the literal alone and followed by each byte that can continue a tag opener.
+func c13PreNow() []string {
+	c13PreOnce.Do(func() {
+		c13PreAll = append([]string{}, c13Pre...)
+		for _, a := range without(uniq(alpha.DeltaHTML(), newByteAtoms()), "<") {
+			for _, x := range []string{"", "a", "a ", "!", "!--", "!doctype ", "/", "/a ", "?", "%", "script "} {
+				c13PreAll = append(c13PreAll, a+x)
+			}
+		}
+	})
+	return c13PreAll
+}
+
 var c13Pre = []string{"a", " ", ">", "'", "\"", "`", "=", "/", "-", "x=1 ", "a>b", "\x00", "--", "]]>", "%>", "&#60;", "javascript:", "onerror="}
 
 func evalC13(w *fw.W, s, _ string) {
@@ -35,13 +55,13 @@ func evalC13(w *fw.W, s, _ string) {
 			return
 		}
 	}
-	for _, t := range c13Pre {
+	for _, t := range c13PreNow() {
 		if pv := lib.VerifXSSContext(t+s, 0); pv != v[0] {
 			w.Fail("prefix", fmt.Sprintf("data verdict=%v but with %q (no '<') prepended=%v", v[0], t, pv))
 			return
 		}
 	}
-	w.Traces(5 + 4 + len(c13Pre))
+	w.Traces(5 + 4 + len(c13PreNow()))
 	k := uint64(0)
 	for c := range v {
 		if v[c] {
